@@ -73,9 +73,15 @@ func (cc *c51sCC) UpdateState(s resolver.State) error {
 			cc.x.Fail(c51sP, "interceptor-closed-while-rpc-uncommitted", "at a push: the interceptor of uncommitted RPC #%d (%s) is closed", rpc.id, rpc.cluster)
 		}
 	}
+	kind, targets := c51SelectorTargets(sel)
+	for _, tg := range targets {
+		if !c51Has(children, tg) {
+			cc.x.Fail(c51sP, "selector-routes-outside-its-service-config", "update pushed with service config children %v and a config selector (%s) that routes RPCs to %s", children, kind, tg)
+		}
+	}
 	w.mu.Unlock()
 	cc.cur = sel
-	vsched.Observe("push %v", children)
+	vsched.Observe("push %v selector->%v", children, targets)
 	cc.sel.Unlock()
 	return nil
 }
@@ -125,7 +131,7 @@ func (w *c51sWorld) selectRPC(name, cluster string) *c51RPC {
 	if il, ok := cfg.Interceptor.(*interceptorList); ok && len(il.interceptors) == 1 {
 		rpc.icpt, _ = il.interceptors[0].(*c51Interceptor)
 	}
-	if rpc.cluster != "cluster:"+cluster {
+	if want := c51RouteFor(cluster).children()[0]; rpc.cluster != want {
 		w.x.Fail(c51sP, "select-wrong-cluster", "%s: RPC on /%s routed to %q", name, cluster, rpc.cluster)
 	}
 	if cfg.OnCommitted == nil {
@@ -172,7 +178,11 @@ type c51sRPCSpec struct {
 }
 
 // initial == nil: one route per cluster, /A/ -> A and /B/ -> B.
-func c51sScenario(name string, bc *bootstrap.Config, initial []c51Route, rpcs []c51sRPCSpec, bound int) vsched.Scenario {
+// to: the single target ("B" or plugin "pB") the concurrent update switches to.
+func c51sScenario(name string, bc *bootstrap.Config, initial []c51Route, to string, rpcs []c51sRPCSpec, bound int) vsched.Scenario {
+	final := c51RouteFor(to).children()[0]
+	wantChildren := "[" + final + "]"
+	wantRefs := final + "=1"
 	return vsched.Scenario{Name: name, Bound: bound, Horizon: 4000, Body: func(x *vsched.X) {
 		x.BackgroundSetup()
 		w, err := c51sNewWorld(x, bc)
@@ -184,10 +194,20 @@ func c51sScenario(name string, bc *bootstrap.Config, initial []c51Route, rpcs []
 			w.deliverRoutes("initial", initial)
 		} else {
 			w.deliver([]string{"A", "B"})
+			initial = []c51Route{c51RouteFor("A"), c51RouteFor("B")}
 		}
 		w.client.pump()
-		if got := fmt.Sprint(w.latestChildren()); got != "[cluster:A cluster:B]" {
-			x.Fail(c51sP, "harness", "set-up: children %s after routes{A,B}", got)
+		var wantInit []string
+		for _, rt := range initial {
+			for _, ch := range rt.children() {
+				if !c51Has(wantInit, ch) {
+					wantInit = append(wantInit, ch)
+				}
+			}
+		}
+		sort.Strings(wantInit)
+		if got := fmt.Sprint(w.latestChildren()); got != fmt.Sprint(wantInit) {
+			x.Fail(c51sP, "harness", "set-up: children %s after the initial route configuration, want %v", got, wantInit)
 		}
 		results := make([]string, len(rpcs))
 		selected := make([]*c51RPC, len(rpcs))
@@ -229,8 +249,8 @@ func c51sScenario(name string, bc *bootstrap.Config, initial []c51Route, rpcs []
 		}
 		x.Go("update", func() {
 			vsched.Yield()
-			vsched.Observe("routes{B} delivered")
-			w.deliver([]string{"B"})
+			vsched.Observe("routes{%s} delivered", to)
+			w.deliver([]string{to})
 		})
 		x.OnStuck(func() bool {
 			// deliveries of the scripted xDS client (none expected in these programs)
@@ -263,21 +283,27 @@ func c51sScenario(name string, bc *bootstrap.Config, initial []c51Route, rpcs []
 				x.Fail(c51sP, "harness", "%d RPCs still uncommitted at the end", left)
 			}
 			// all RPCs committed, routes {B}: the removed cluster is gone
-			if got := fmt.Sprint(w.latestChildren()); got != "[cluster:B]" {
-				x.Fail(c51sP, "removed-cluster-not-dropped", "at quiescence after all commits the latest service config has children %s, want [cluster:B]", got)
+			if got := fmt.Sprint(w.latestChildren()); got != wantChildren {
+				x.Fail(c51sP, "removed-cluster-not-dropped", "at quiescence after all commits the latest service config has children %s, want %s", got, wantChildren)
 			}
 			refs := w.refs()
-			if refs != "cluster:B=1" {
-				x.Fail(c51sP, "refcount-ledger", "at quiescence clusterInfo.refCount = {%s}, ledger {cluster:B=1} (one reference for the current config selector, no uncommitted RPC)", refs)
+			if refs != wantRefs {
+				x.Fail(c51sP, "refcount-ledger", "at quiescence clusterInfo.refCount = {%s}, ledger {%s} (one reference for the current config selector, no uncommitted RPC)", refs, wantRefs)
+			}
+			// the selector of the latest update is the one of the latest route configuration
+			if lp := w.lastPush(); lp != nil {
+				if kind, tg := c51SelectorTargets(lp.sel); kind != "routes" || fmt.Sprint(tg) != wantChildren {
+					x.Fail(c51sP, "stale-selector", "at quiescence the latest update carries config selector %s%v; the latest route configuration routes to %s", kind, tg, wantChildren)
+				}
 			}
 			// a further update must not bring the cluster back or find stale state
-			w.deliver([]string{"B"})
+			w.deliver([]string{to})
 			w.client.pump()
-			if got := fmt.Sprint(w.latestChildren()); got != "[cluster:B]" {
-				x.Fail(c51sP, "removed-cluster-not-dropped", "after a further update the latest service config has children %s, want [cluster:B]", got)
+			if got := fmt.Sprint(w.latestChildren()); got != wantChildren {
+				x.Fail(c51sP, "removed-cluster-not-dropped", "after a further update the latest service config has children %s, want %s", got, wantChildren)
 			}
-			if refs := w.refs(); refs != "cluster:B=1" {
-				x.Fail(c51sP, "refcount-ledger", "after a further update clusterInfo.refCount = {%s}, ledger {cluster:B=1}", refs)
+			if refs := w.refs(); refs != wantRefs {
+				x.Fail(c51sP, "refcount-ledger", "after a further update clusterInfo.refCount = {%s}, ledger {%s}", refs, wantRefs)
 			}
 			res := append([]string(nil), results...)
 			sort.Strings(res)
@@ -291,7 +317,7 @@ func TestVerif_C51_ResolverSched(t *testing.T) {
 	const P = c51sP
 	r := vk.Start(t, "c51_resolver_sched", "exploration", P)
 	defer r.Finish()
-	r.Rule(P, "every schedule with at most B preemptions (quick 2, thorough 3) of closed drivers on the production xDS resolver (internal/xds/resolver instrumented: clusterInfo.refCount atomics, the OnCommitted OnceFunc lock and map ranges are scheduling points; built un-scheduled by the production Build with the real dependency manager and a scripted xDS client, routes {A,B} pushed; one scenario starts from a route configuration that references cluster A three times). Threads: 2 RPCs (SelectConfig through the channel's current selector under a SafeConfigSelector-like read lock; 1-2 in-flight steps; OnCommitted), a route-configuration update to {B}, optionally a second thread calling the same commit hook; the resolver's callback serializer goroutine is adopted as a scheduled thread. Checked at every service-config push (under the write lock) and at the quiescent end against a ledger of selected-but-uncommitted RPCs; non-trivial = executions deviating from the default schedule")
+	r.Rule(P, "every schedule with at most B preemptions (quick 2, thorough 3) of closed drivers on the production xDS resolver (internal/xds/resolver instrumented: clusterInfo.refCount atomics, the OnCommitted OnceFunc lock and map ranges are scheduling points; built un-scheduled by the production Build with the real dependency manager and a scripted xDS client, routes {A,B} pushed; one scenario starts from a route configuration that references cluster A three times, one uses cluster-specifier-plugin routes pA,pB -> pB). Threads: 2 RPCs (SelectConfig through the channel's current selector under a SafeConfigSelector-like read lock; 1-2 in-flight steps; OnCommitted), a route-configuration update to {B}, optionally a second thread calling the same commit hook; the resolver's callback serializer goroutine is adopted as a scheduled thread. Checked at every service-config push (under the write lock) and at the quiescent end against a ledger of selected-but-uncommitted RPCs; non-trivial = executions deviating from the default schedule")
 	r.Assume(P, "scheduling points only inside internal/xds/resolver: the callback serializer (grpcsync), the dependency manager's mutex and grpcsync.RefCounted are not instrumented (their steps are atomic with the surrounding resolver step); the channel is modelled (selector + service config swapped atomically under a write lock that waits for running SelectConfig calls, as SafeConfigSelector does); an RPC counts as committed from the moment its hook is invoked")
 
 	contents, err := bootstrap.NewContentsForTesting(bootstrap.ConfigOptionsForTesting{
@@ -310,12 +336,15 @@ func TestVerif_C51_ResolverSched(t *testing.T) {
 	defer c51InstallWRR()()
 	b := r.Pick(2, 3)
 	scs := []vsched.Scenario{
-		c51sScenario("rpcA+rpcB+update", bc, nil, []c51sRPCSpec{{cluster: "A", flight: 1}, {cluster: "B", flight: 1}}, b),
-		c51sScenario("rpcA+rpcA+update", bc, nil, []c51sRPCSpec{{cluster: "A", flight: 1}, {cluster: "A", flight: 2}}, b),
-		c51sScenario("rpcA-doublecommit+rpcA+update", bc, nil, []c51sRPCSpec{{cluster: "A", flight: 1, dup: true}, {cluster: "A", flight: 2}}, b),
+		c51sScenario("rpcA+rpcB+update", bc, nil, "B", []c51sRPCSpec{{cluster: "A", flight: 1}, {cluster: "B", flight: 1}}, b),
+		c51sScenario("rpcA+rpcA+update", bc, nil, "B", []c51sRPCSpec{{cluster: "A", flight: 1}, {cluster: "A", flight: 2}}, b),
 		// cluster A referenced three times by the initial route configuration
 		// (two routes, one of them listing it twice in weighted_clusters)
-		c51sScenario("A-referenced-3x/rpcA+rpcA+update", bc, []c51Route{{"/A/", []string{"A", "A"}}, {"/A2/", []string{"A"}}, {"/B/", []string{"B"}}}, []c51sRPCSpec{{cluster: "A", flight: 1}, {cluster: "A", flight: 2}}, b),
+		c51sScenario("A-referenced-3x/rpcA+rpcA+update", bc, []c51Route{{Prefix: "/A/", Clusters: []string{"A", "A"}}, {Prefix: "/A2/", Clusters: []string{"A"}}, {Prefix: "/B/", Clusters: []string{"B"}}}, "B", []c51sRPCSpec{{cluster: "A", flight: 1}, {cluster: "A", flight: 2}}, b),
+		// cluster specifier plugin routes: pA and pB configured, the update leaves only pB
+		c51sScenario("plugins/rpcPA+rpcPA+update", bc, []c51Route{c51RouteFor("pA"), c51RouteFor("pB")}, "pB", []c51sRPCSpec{{cluster: "pA", flight: 1}, {cluster: "pA", flight: 2}}, b),
+		// largest scenario last: it gets whatever is left of the leg budget
+		c51sScenario("rpcA-doublecommit+rpcA+update", bc, nil, "B", []c51sRPCSpec{{cluster: "A", flight: 1, dup: true}, {cluster: "A", flight: 2}}, b),
 	}
 	vsched.RunScenarios(t, r, []string{P}, scs)
 	r.Sample(P, map[string]any{"scenario": "rpcA-doublecommit+rpcA+update", "threads": []string{"rpc1: SelectConfig(/A/m); yield; OnCommitted()", "rpc1-dup: wait until rpc1 is selected; OnCommitted() of rpc1 again", "rpc2: SelectConfig(/A/m); yield; yield; OnCommitted()", "update: yield; route configuration -> {B}", "callback serializer (adopted): Update -> newConfigSelector -> prune -> push -> stop old selector"}})
